@@ -173,6 +173,15 @@ func vRunC12(c *vCase) {
 		c.Cov("abaco_path_runs", 1)
 		return
 	}
+	if c.Idx%200 == 157 {
+		// the same caller with unwrapping off: inverted channels with and without rescaling (what the unwrapper objects are used for
+		// when they do not unwrap); exact expected values, no reference unwrapper
+		vAbForceInvert = true
+		vRunAbaco(c)
+		vAbForceInvert = false
+		c.Cov("abaco_path_runs_without_unwrapping", 1)
+		return
+	}
 	r := c.R
 	var o vUnwrapOpts
 	switch r.Intn(4) {
